@@ -265,6 +265,12 @@ def _nf_arith(op, a, b):
     fa = a.f if isinstance(a, NonFinite) else a
     fb = b.f if isinstance(b, NonFinite) else b
     if is_sym(fa) or is_sym(fb):
+        if any(isinstance(x, NonFinite) and x.f != x.f for x in (a, b)):
+            # a NaN constant computed by the program (0/0 of configuration values) absorbs the symbolic operand: the
+            # result is an unconstrained "poison" real, so everything that can observe it is sat and goes to replay
+            global _DIV0
+            _DIV0 += 1
+            return z3.Real(f"div0!nan{_DIV0}")
         raise Unsupported(f"non-finite constant in symbolic {op}")
     fa, fb = float(fa), float(fb)
     r = {"add": fa + fb, "sub": fa - fb, "mul": fa * fb, "div": fa / fb if fb else math.nan}[op]
